@@ -120,7 +120,7 @@ HISTORY = {
  "C07": WALK,
  "C08": WALK + " Instants are walked as well (same instant, +-1 s, +-2 h, day edges, same clock time on a related day).",
  "C09": WALK + " Hours that have already answered questions are also stepped (chains of 1..3 LunarHour::next) and judged at the instant 7200*n s later.",
- "C10": "Queries of the wider API surface (terms, term days, weeks, Julian dates, festivals, holidays, day and hour almanac, term-anchored series, leap months, pillars, clock arithmetic, births) are laid out as single-thread walks over related queries and every answer is compared with the answer the same query gets as the only call of a fresh thread; the fresh processes answer a list containing such walks in listed, reversed and shuffled orders; values that have answered questions are compared with never-touched values of the same date (==, !=, rendering, order, round trips) and stems / branches / pillars are stepped from warm and cold sources.",
+ "C10": "Queries of the wider API surface (terms, term days, weeks, Julian dates, festivals, holidays, day and hour almanac, term-anchored series, leap months, pillars, clock arithmetic, births) are laid out as single-thread walks over related queries and every answer is compared with the answer the same query gets as the only call of a fresh thread; the fresh processes answer a list containing such walks in listed, reversed and shuffled orders; hot sets of related queries are answered by all worker threads at once and compared with answers taken one at a time on fresh threads; values that have answered questions are compared with never-touched values of the same date (==, !=, rendering, order, round trips) and stems / branches / pillars are stepped from warm and cold sources.",
  "C12": WALK + " Instants are walked (same instant, +-1 s, +-2 h, day edges, same clock time on a related day).",
  "C13": WALK,
  "C14": WALK,
